@@ -195,11 +195,15 @@ func HarnessEndToEnd() {
 // CH hands out streams whose producers are driven step by step by the harness.
 type CH struct {
 	feed map[int]chan int64 // values to forward on stream tag; closing it closes the stream
+	gate chan struct{}      // if set, handlers return only once it is closed (all at the same instant)
 }
 
 func (h *CH) Sub(ctx context.Context, tag int) (<-chan int64, error) {
 	out := make(chan int64)
 	in := h.feed[tag]
+	if h.gate != nil {
+		<-h.gate
+	}
 	go func() {
 		defer close(out)
 		for v := range in {
@@ -283,6 +287,75 @@ func HarnessManyStreams() {
 	pc.CloseGraceful()
 	verif.Quiesce()
 	verif.Reach("many-streams-done")
+}
+
+// HarnessConcurrentSubscribe: S subscription requests are on the wire back to back, so their
+// handlers return (and their channels are registered) concurrently. Every subscription is
+// announced under its own channel id, and the values and the close of each stream are sent
+// under the id announced for it.
+func HarnessConcurrentSubscribe() {
+	n := verif.Bound("S", 2)
+	h := &CH{feed: map[int]chan int64{}, gate: make(chan struct{})}
+	for i := 0; i < n; i++ {
+		h.feed[i] = make(chan int64)
+	}
+	srv := jsonrpc.NewServer()
+	srv.Register("H", h)
+	pc := verif.DialRaw(srv, nil)
+	for i := 0; i < n; i++ {
+		b, _ := json.Marshal(map[string]interface{}{"jsonrpc": "2.0", "id": 100 + i, "method": "H.Sub", "params": []interface{}{i}})
+		pc.Send(b)
+	}
+	verif.Quiesce() // every handler is running
+	close(h.gate)   // ... and they all return at the same instant
+	chanOf := map[int]float64{}
+	for k := 0; k < n; k++ {
+		rb, ok := pc.Recv()
+		verif.Assert(ok, "subscription-answered")
+		var f frame
+		json.Unmarshal(rb, &f)
+		id, _ := f.ID.(float64)
+		i := int(id) - 100
+		verif.Assert(f.Method == "" && i >= 0 && i < n, "response-for-a-subscription")
+		_, dup := chanOf[i]
+		verif.Assert(!dup, "one-response-per-subscription")
+		var ch float64
+		json.Unmarshal(f.Result, &ch)
+		for _, other := range chanOf {
+			verif.Assert(other != ch, "concurrent-subscriptions-get-distinct-channel-ids")
+		}
+		chanOf[i] = ch
+	}
+	for i := 0; i < n; i++ {
+		v := verif.Int("v" + string(rune('0'+i)))
+		h.feed[i] <- v
+		rb, ok := pc.Recv()
+		verif.Assert(ok, "connection-stays-up")
+		var f frame
+		json.Unmarshal(rb, &f)
+		var ch float64
+		var got int64
+		if len(f.Params) > 1 {
+			json.Unmarshal(f.Params[0], &ch)
+			json.Unmarshal(f.Params[1], &got)
+		}
+		verif.Assert(f.Method == "xrpc.ch.val" && ch == chanOf[i] && got == v, "value-sent-under-its-own-channel-id")
+	}
+	for i := 0; i < n; i++ {
+		close(h.feed[i])
+		rb, ok := pc.Recv()
+		verif.Assert(ok, "connection-stays-up")
+		var f frame
+		json.Unmarshal(rb, &f)
+		var ch float64
+		if len(f.Params) > 0 {
+			json.Unmarshal(f.Params[0], &ch)
+		}
+		verif.Assert(f.Method == "xrpc.ch.close" && ch == chanOf[i], "close-sent-under-its-own-channel-id")
+	}
+	pc.CloseGraceful()
+	verif.Quiesce()
+	verif.Reach("concurrent-subscribe-done")
 }
 
 type SH struct {
